@@ -14,6 +14,7 @@ structure St where
   comp : Nat → List (Nat × Nat) := fun _ => []              -- `React<C>` components: (type, value)
   res : Nat → Nat := fun _ => 0                              -- `ReactResInner<R>`
   removedBuf : Nat → List Nat := fun _ => []                 -- unread `RemovedComponents<React<C>>` events
+  removedOld : Nat → Nat := fun _ => 0                       -- how many of them (oldest first) are from before the last `clear_trackers`
   -- system commands
   storage : Nat → Option Bool := fun _ => none               -- `SystemCommandStorage`: `some true` = callback present
   info : Nat → SysInfo := fun _ => {}
@@ -324,10 +325,16 @@ def removalCmdsFor (s : St) (ty : Nat) (e : Nat) : List Cmd :=
 
 /-- One removal checker: drains the removal buffer of one tracked type. -/
 def pollRemStep (acc : St × List Cmd) (ty : Nat) : St × List Cmd :=
-  ({ acc.1 with removedBuf := upd acc.1.removedBuf ty [] }, acc.2 ++ (acc.1.removedBuf ty).flatMap (removalCmdsFor acc.1 ty))
+  ({ acc.1 with removedBuf := upd acc.1.removedBuf ty [], removedOld := upd acc.1.removedOld ty 0 }, acc.2 ++ (acc.1.removedBuf ty).flatMap (removalCmdsFor acc.1 ty))
 
 /-- `schedule_removal_reactions`: drains the buffer of every tracked type. -/
 def pollRemovals (s : St) : St × List Cmd := s.tracked.foldl pollRemStep (s, [])
+
+/-- `World::clear_trackers` (Bevy's `Events::update` on every removal-event buffer): the events that were already there at
+    the previous call are dropped, read or not; the others become old. -/
+def clearTrackers (s : St) : St :=
+  { s with removedBuf := fun ty => (s.removedBuf ty).drop (s.removedOld ty),
+           removedOld := fun ty => ((s.removedBuf ty).drop (s.removedOld ty)).length }
 
 /-- One received despawn: the whole reactor list of the entity is consumed. -/
 def pollDspStep (acc : St × List Cmd) (e : Nat) : St × List Cmd :=
